@@ -13,7 +13,14 @@ RULE = ("cases = one call of PointAttribute::DeduplicateValues (dv), PointCloud/
         "duplicate faces, isolated points. Every case is compared as text with the Coq model's result (values as hex bytes, maps, faces). "
         "Direct checks on the implementation per case: point/corner value bytes preserved, no equal values / equal points left, "
         "idempotence, cleanup result against an independent computation from the documented semantics, builder results carry the given "
-        "bytes; MeshStripifier (strip r / strip d cases, both modes): index stream compared with the model's (Model/Strips.v, the library's opposite-corner table is an input of the model; a stream that differs but decodes to the same triangles counts as a free choice of the heuristic, not as a disagreement), the hypothesis of the partial strip theorem evaluated on every case, and the library's stream decoded by the harness must give the mesh's triangles. A case is distinct by "
+        "bytes; MeshStripifier (strip r / strip d cases, both modes, on every soup result and on designed meshes: grids, fans, long strips, closed bands, "
+        "tori, tetra/octahedra, Moebius bands, k faces on an edge, bow-ties, random non-manifold soups, several components, attribute seams, point- and "
+        "position-degenerate faces, 0/1 faces, and arbitrary geometries with a POSITION attribute): index stream compared with the model's (Model/Strips.v, the "
+        "library's opposite-corner table is an input of the model; a stream that differs but decodes to the same triangles counts as a free choice of the "
+        "heuristic, not as a disagreement), the single hypothesis of the strip theorems (the table is a symmetric pairing of existing corners) evaluated on the "
+        "library's table in every case, and the full clause checked directly: the library's stream is decoded by the harness (restart: runs with alternating "
+        "winding; degenerate: one strip, triangles with two equal indices dropped) and must give the mesh's triangles as a multiset up to rotation, in point ids "
+        "and in per-corner attribute bytes. A case is distinct by "
         "its text; all cases count as non-trivial (each runs one library operation on a generated geometry)")
 
 
